@@ -11,6 +11,7 @@
 #include "common.h"
 #include <tulz/Path.h>
 #include <tulz/DirectoryVisitor.h>
+#include <map>
 #include <tulz/Exception.h>
 #include <filesystem>
 #include <fstream>
@@ -61,6 +62,7 @@ int main() {
             }
             return p;
         };
+        std::map<std::string, Path> keep;
         for (size_t li = 1; li < c.lines.size(); ++li) {
             const Line &l = c.lines[li];
             if (l.empty()) { emit({PRE}); continue; }
@@ -102,9 +104,22 @@ int main() {
                 out.push_back(1);
                 break;
             }
+            case 42: {
+                // remove a regular file or an empty directory (never the working directory or one of its ancestors)
+                if (l.size() < 2) { ok = false; break; }
+                std::string p = pathOf(l, 1, ok); if (!ok) break;
+                std::string cwdNow = fs::current_path().string();
+                if (cwdNow.compare(0, p.size(), p) == 0 && (cwdNow.size() == p.size() || cwdNow[p.size()] == '/')) { ok = false; break; }
+                std::error_code ec;
+                if (fs::is_symlink(p) || !(fs::is_regular_file(p) || (fs::is_directory(p) && fs::is_empty(p)))) { ok = false; break; }
+                fs::remove(p);
+                out.push_back(1);
+                break;
+            }
             case 50: {
                 std::string p = pathOf(l, 1, ok); if (!ok) break;
-                Path pp(p);
+                // Path objects live as long as the case: a name may stop being a directory (or a file) between two queries
+                Path &pp = keep.try_emplace(p, Path(p)).first->second;
                 bool e = pp.exists(), f = pp.isFile(), d = pp.isDirectory();
                 out = {e ? 1 : 0, f ? 1 : 0, d ? 1 : 0};
                 if (e != fs::exists(p) || f != fs::is_regular_file(p) || d != fs::is_directory(p))
@@ -114,7 +129,7 @@ int main() {
             case 51: {
                 std::string p = pathOf(l, 1, ok); if (!ok) break;
                 try {
-                    size_t sz = Path(p).size();
+                    size_t sz = keep.try_emplace(p, Path(p)).first->second.size();
                     out.push_back((int64_t) sz);
                     uintmax_t expect = 0;
                     if (fs::is_regular_file(p)) expect = fs::file_size(p);
@@ -129,7 +144,7 @@ int main() {
             case 52: {
                 std::string p = pathOf(l, 1, ok); if (!ok) break;
                 try {
-                    auto children = Path(p).listChildren();
+                    auto children = keep.try_emplace(p, Path(p)).first->second.listChildren();
                     std::vector<int64_t> ids;
                     std::vector<std::string> got;
                     for (auto &ch : children) {
